@@ -1,4 +1,6 @@
 import Prism.Proofs.C05
+import Prism.Proofs.C05Chunks
+import Prism.Proofs.C06Stream
 
 #print axioms Prism.C05_png
 #print axioms Prism.C05_jpeg
@@ -7,3 +9,7 @@ import Prism.Proofs.C05
 #print axioms Prism.C05_webp_vp8l
 #print axioms Prism.C05_vp8l_fields
 #print axioms Prism.C05_webp_vp8x
+#print axioms Prism.Png.C05_png_any_ancillary
+#print axioms Prism.Png.C05_png_any_ancillary_pure
+#print axioms Prism.Jpeg.C05_jpeg_any_segments
+#print axioms Prism.Jpeg.C05_jpeg_any_segments_pure
